@@ -151,7 +151,7 @@ def execute(case, stats):
                                                      "sorted": bool(case["sortby"])})
                     for k in part.keys():
                         if k not in want:
-                            V("part", "unexpected-key", {"key": k})
+                            stats.inc("probe.extra_non_stored_key_in_part_group")  # e.g. a derived variable: not judged
                 if ds.meta.get("nparticles") != ntot:
                     V("part", "meta-nparticles", {"meta": int(ds.meta.get("nparticles", -1)), "rows": ntot})
         elif "part" in ds and len(ds["part"].keys()):
@@ -211,7 +211,7 @@ def execute(case, stats):
                                 V("sink", "values", {"key": raw, "unit": ue, "got": obs.tolist()[:3], "want": (col * factor).tolist()[:3]})
                 for k in sink.keys():
                     if k not in want:
-                        V("sink", "unexpected-key", {"key": k})
+                        stats.inc("probe.extra_non_stored_key_in_sink_group")
         elif "sink" in ds:
             V("sink", "group-from-nowhere", {"keys": list(ds["sink"].keys())})
     stats.inc(f"swarm.ndim={p['ndim']}")
